@@ -35,6 +35,8 @@ def run(res, replay=None):
         lmax = max(tol["L"][:dim])
         ptol = max(100 * max(tol["eps"][:dim]), 10 * tol["rel"] * lmax)
         for i, vi in views.items():
+            if vi is not None and not vi["faces_mapped"]:
+                res.violation("C03:face-list-shape" + geo.mismatch_class(rec), f"cell {i}: {vi['n_face_integrals']} face integrals but {len(vi['face_planes'])} planes of valid dimensionality carry vertices", dict(ctx, cell=i))
             if vi is None or not vi["faces_mapped"]:
                 continue
             for key, f in vi["faces"].items():
